@@ -987,7 +987,10 @@ fn oracle(prop: &str, sync: bool, hist: &[H], log: &[LRec]) {
         // F32's signature: the late thread's view diverges while thread 1 has ended inside a span
         // (any thread whose first use of the registry comes after thread 1 has ended can be handed its storage: the
         // late thread, but also the main thread if it had not entered anything before)
-        set_violation_suffix(if t != 1 && h.inv > t1_end && thread_stack.get(&1).map_or(false, |v| !v.is_empty()) { " [F32-signature]" } else { "" });
+        // and the storage only changes hands in `Registry::enter` (`get_or_default`): a thread that has not entered
+        // anything since must still see no current span, finding or no finding
+        let entered_since = hist.iter().any(|e| e.applied && e.t == t && e.op == "enter" && e.inv > t1_end && e.inv <= h.inv);
+        set_violation_suffix(if t != 1 && h.inv > t1_end && entered_since && thread_stack.get(&1).map_or(false, |v| !v.is_empty()) { " [F32-signature]" } else { "" });
         let cur_uid = thread_stack.get(&t).and_then(|v| v.last().copied()).unwrap_or(0);
         let cur_id = spans.get(&cur_uid).map(|s| s.id).unwrap_or(0);
         let mut became: Vec<u64> = vec![]; // spans whose closability may have changed
